@@ -475,6 +475,73 @@ class Groups(SubCheck):
         return out
 
 
+class DegenerateArcs(SubCheck):
+    """endpoint-form arcs that SVG F.6.2 turns into a straight line (a zero radius) or into nothing (coincident end
+    points): the box of the segment, and of a path ending with it, is the box of that line / point"""
+    name = "degenerate-arcs"
+    single_outcome_ok = True
+
+    def __init__(self, svg):
+        self.svg = svg
+        pts = [((1.0, 2.0), (5.0, -3.0)), ((0.0, 0.0), (10.0, 4.0)), ((3.0, -2.0), (3.0, 5.5)), ((3.0, -2.0), (-4.0, -2.0)),
+               ((3.0, -2.0), (3.0, -2.0))]
+        radii = [(0.0, 0.0), (0.0, 5.0), (5.0, 0.0), (-0.0, 3.0), (5.0, 8.0)]
+        self.p = Product(pts, radii, [0.0, 30.0], [(0, 0), (1, 1)], MAGS, ["segment", "path-last", "path-before-move", "path-mid"])
+
+    def size(self):
+        return len(self.p)
+
+    def case(self, i):
+        (s, e), (rx, ry), rot, (fa, fs), m, ctx = self.p[i]
+        return dict(start=[s[0] * m, s[1] * m], end=[e[0] * m, e[1] * m], rx=rx * m, ry=ry * m, rot=rot, fa=fa, fs=fs, ctx=ctx, mag=m)
+
+    def run(self, case):
+        out = Outcome()
+        svg = self.svg
+        s, e = tuple(case["start"]), tuple(case["end"])
+        if case["rx"] != 0 and case["ry"] != 0 and s != e:
+            return out      # an ordinary arc: the Arcs sub-check
+        try:
+            arc = svg.Arc(s, case["rx"], case["ry"], case["rot"], case["fa"], case["fs"], e)
+            if case["ctx"] == "segment":
+                bb = arc.bbox()
+                pts = [s, e]
+            else:
+                P = svg.Point
+                segs = [svg.Move(end=P(*s)), arc]
+                pts = [s, e]
+                if case["ctx"] == "path-before-move":
+                    segs += [svg.Move(P(*e), P(e[0] + 1, e[1] + 1))]
+                    pts = [s, e, (e[0] + 1, e[1] + 1)] if False else [s, e]
+                elif case["ctx"] == "path-mid":
+                    z = (e[0] + 2 * case["mag"], e[1] - 1 * case["mag"])
+                    segs += [svg.Line(P(*e), P(*z))]
+                    pts = [s, e, z]
+                bb = svg.Path(*segs).bbox()
+        except Exception as ex:  # noqa
+            out.fail("bbox of a degenerate arc raised %s" % type(ex).__name__, None, repr(ex), kind="exception", **case)
+            return out
+        out.traces += 1
+        out.nontrivial.append(tuple(sorted((k, str(v)) for k, v in case.items())))
+        want = (min(p[0] for p in pts), min(p[1] for p in pts), max(p[0] for p in pts), max(p[1] for p in pts))
+        tol = 1e-12 * max(1e-300, max(abs(v) for v in want))
+        alt = None
+        if case["ctx"] == "path-before-move":
+            # a bare moveto may or may not contribute to the box (both readings are accepted, see DESIGN 0.3)
+            m2 = (e[0] + 1, e[1] + 1)
+            alt = (min(want[0], m2[0]), min(want[1], m2[1]), max(want[2], m2[0]), max(want[3], m2[1]))
+        ok = bb is not None and (all(abs(a - b) <= tol for a, b in zip(bb, want)) or
+                                 (alt is not None and all(abs(a - b) <= tol for a, b in zip(bb, alt))))
+        out.outcome = ok
+        if not ok:
+            out.fail("degenerate arc %r -> %r radii (%r, %r) [%s]: bbox %r, the line / point it draws has %r" % (
+                s, e, case["rx"], case["ry"], case["ctx"], bb, want), list(want), list(bb) if bb else None, kind="degenerate-arc", **case)
+        return out
+
+    def unit_test(self, case):
+        return None
+
+
 def stale_check(svg, tier):
     from props import stale
     measures = {
@@ -495,7 +562,8 @@ def stale_check(svg, tier):
 
 
 def build(tier, seed, svg):
-    return [Quads(svg, tier), Cubics(svg, tier), Arcs(svg, tier), Containers(svg, tier), Groups(svg, tier), stale_check(svg, tier)]
+    return [Quads(svg, tier), Cubics(svg, tier), Arcs(svg, tier), DegenerateArcs(svg), Containers(svg, tier), Groups(svg, tier),
+            stale_check(svg, tier)]
 
 
 MATCHERS = {}
